@@ -44,6 +44,8 @@ def int_decorator(size, id_, min_, max_):
         def check(value):
             if not isinstance(value, (int, long)):
                 raise ProphyError("not an int")
+            if isinstance(value, bool):
+                value = int(value)
             if not min_ <= value <= max_:
                 raise ProphyError("value: {} out of {}B integer's bounds: [{}, {}]".format(value, size, min_, max_))
             return value
@@ -65,6 +67,8 @@ def float_decorator(size, id_):
         def check(value):
             if not isinstance(value, (float, int, long)):
                 raise ProphyError("not a float")
+            if isinstance(value, bool):
+                value = float(value)
             try:
                 struct.pack('<' + id_, value)
             except (OverflowError, struct.error):
